@@ -565,3 +565,57 @@ def entangle_attached(chk, rid):
          'so MagicalEntangle refers to a variable nothing binds (compilation stops with an '
          'internal error)' % (norm(detached, 70) if detached is not None else ''),
          fi=dc.fi, node=detached)
+
+
+def bad_functor_arguments_diagnosed(chk, rid):
+  """`F(A: x, B: y)` is an error as soon as ONE of the named arguments is not
+  a predicate F depends on.  The FunctorError of CallFunctor therefore hangs
+  on "the set of argument names minus the dependencies of the applicant is
+  not empty" (or an equivalent subset / any() test) - not on a weaker
+  condition such as "none of the arguments is a dependency"."""
+  from sa.pathrules import FnView
+  repo = chk.repo
+  v = FnView(repo, 'functors.Functors.CallFunctor')
+  def mentions(e, *names):
+    t_ = norm(e, 400)
+    return any(n_ in t_ for n_ in names)
+  found = None
+  weak = None
+  for n, r in v.raises():
+    for h, pol in v.cfg.header_of(n):
+      st = v.cfg.stmt[h]
+      if not isinstance(st, ast.If):
+        continue
+      t_ = v.expand(st.test, 4)
+      if not mentions(t_, 'args_map'):
+        continue
+      ok_ = False
+      for x in ast.walk(t_):
+        if isinstance(x, ast.BinOp) and isinstance(x.op, ast.Sub) and mentions(x.left, 'args_map') \
+            and mentions(x.right, 'args_of', 'ArgsOf'):
+          ok_ = True
+        elif isinstance(x, ast.Compare) and len(x.ops) == 1 and \
+            isinstance(x.ops[0], (ast.LtE, ast.Lt, ast.GtE)) and mentions(x, 'args_of', 'ArgsOf'):
+          ok_ = True
+        elif isinstance(x, ast.Call) and call_tail(x) in ('issubset', 'issuperset', 'difference') \
+            and mentions(x, 'args_of', 'ArgsOf'):
+          ok_ = True
+        elif isinstance(x, ast.Call) and call_tail(x) in ('any', 'all') and x.args and \
+            isinstance(x.args[0], (ast.GeneratorExp, ast.ListComp)) and \
+            mentions(x.args[0], 'args_of', 'ArgsOf') and mentions(x.args[0], 'args_map'):
+          ok_ = True
+      # the difference must decide alone: no other conjunct may switch it off
+      if ok_ and isinstance(t_, ast.BoolOp) and isinstance(t_.op, ast.And):
+        ok_ = False
+      if ok_:
+        found = st
+      else:
+        weak = st
+  if found is None and weak is None:
+    raise AnalysisError('CallFunctor: the diagnostic for foreign arguments is not recognised')
+  chk.ob(rid, found is not None, None,
+         'a functor call is rejected as soon as one named argument is not a dependency of the functor',
+         'the FunctorError hangs on `%s`, not on "some argument is not a dependency": a call '
+         'with one valid and one misspelt argument is accepted and the misspelt binding '
+         'is silently ignored' % (norm(weak.test, 70) if weak is not None else ''),
+         fi=v.fi, node=weak)
